@@ -1,5 +1,1976 @@
-use crate::Ctx;
+//! C14 - generated message and object codecs match the protocol descriptions.
+//!
+//! The four JSON descriptions are read at run time and interpreted by a small reference model of
+//! the member kinds (written from gamenet/generate/datatypes.py). For every described codec the
+//! model builds canonical bytes / words from values swept over the boundaries of the declared
+//! types and predicts, for arbitrary bytes, whether the described layout accepts them. The
+//! generated crates are driven only through their generic entry points
+//! (`System/Game/Connless::decode` + `encode`, `SnapObj::decode_obj` + `encode`, `obj_size`).
+//!
+//! Sections:
+//! * `probe:bool-encode.<proto>.<object>` - one per snapshot object with boolean members (known defect class)
+//! * `msg_boundary_sweep` / `obj_boundary_sweep` - every (codec, member, boundary value), other members default:
+//!   in-constraint => Ok, no warnings, identical re-encoding (+ obj_type_id, obj_size); out-of-constraint => Err
+//! * `id_sweep` - every message ordinal -1024..1023 x system flag and every object type 0..=65535 incl. obj_size
+//! * `msg_vectors` / `obj_vectors` - generated value vectors plus one mutation, library against the model
+//! * `msg_bytes` / `obj_words` - raw, id-prefixed, token-structured and layout-guided bytes / words against the model
 
-pub fn run(_ctx: &Ctx) {
-    // not built yet
+use crate::util::{hex, Warnings};
+use crate::{ensure, ensure_eq, guard, pick, Ctx, Outcome, PResult};
+use libtw2_gamenet_common::snap_obj::TypeId;
+use libtw2_packer::{with_packer, IntUnpacker, Unpacker};
+use proptest::prelude::*;
+use serde::{Deserialize, Serialize};
+use serde_json::{json, Value};
+use std::collections::BTreeMap;
+
+// ---------------------------------------------------------------------------
+// Variable-length integers (doc/int.md), independent of the library
+
+fn put_int(out: &mut Vec<u8>, v: i32) {
+    let sign = v < 0;
+    let mut bits: u32 = if sign { !(v as u32) } else { v as u32 };
+    let mut cur = ((bits & 0x3f) as u8) | if sign { 0x40 } else { 0 };
+    bits >>= 6;
+    while bits != 0 {
+        out.push(cur | 0x80);
+        cur = (bits & 0x7f) as u8;
+        bits >>= 7;
+    }
+    out.push(cur);
+}
+
+fn int_bytes(v: i32) -> Vec<u8> {
+    let mut o = Vec::new();
+    put_int(&mut o, v);
+    o
+}
+
+/// (value, bytes consumed, padding bits zero) or None if the string ends inside the integer.
+fn get_int(b: &[u8]) -> Option<(i32, usize, bool)> {
+    let first = *b.first()?;
+    let sign = first & 0x40 != 0;
+    let mut bits: u32 = (first & 0x3f) as u32;
+    let mut n = 1;
+    let mut ext = first & 0x80 != 0;
+    let mut shift = 6;
+    let mut clean = true;
+    while ext && n < 5 {
+        let byte = *b.get(n)?;
+        n += 1;
+        if n < 5 {
+            bits |= ((byte & 0x7f) as u32) << shift;
+            ext = byte & 0x80 != 0;
+        } else {
+            bits |= ((byte & 0x0f) as u32) << shift;
+            clean = byte & 0xf0 == 0;
+            ext = false;
+        }
+        shift += 7;
+    }
+    let v = if sign { !bits } else { bits } as i32;
+    Some((v, n, clean))
+}
+
+// ---------------------------------------------------------------------------
+// Description model
+
+#[derive(Clone, Copy, Debug, PartialEq, Eq, PartialOrd, Ord)]
+enum Sec {
+    System = 0,
+    Game = 1,
+    Connless = 2,
+    Obj = 3,
+}
+
+const SEC_NAMES: [&str; 4] = ["system", "game", "connless", "snap_obj"];
+
+#[derive(Clone, Copy, Debug, PartialEq, Eq)]
+enum Flavor {
+    Range,
+    Enum,
+    Flags(u32),
+    Bool,
+    Free,
+}
+
+#[derive(Clone, Debug, PartialEq, Eq)]
+enum LeafKind {
+    /// all 32-bit integer kinds: value must lie in lo..=hi
+    Int { lo: i32, hi: i32, flavor: Flavor },
+    Str { strict: bool },
+    Data,
+    /// rest, serverinfo_client: everything up to the end
+    Rest,
+    /// packed_addresses: everything up to the end, whole 18-byte records are canonical
+    Addrs,
+    /// sha256 (32), uuid (16)
+    Raw(usize),
+    BeU16,
+    U8,
+    IntStr,
+}
+
+#[derive(Clone, Debug)]
+struct Leaf {
+    path: String,
+    kind: LeafKind,
+    /// index of the (trailing) optional member this leaf belongs to
+    opt: Option<usize>,
+}
+
+impl Leaf {
+    fn constrained(&self) -> bool {
+        match self.kind {
+            LeafKind::Int { lo, hi, .. } => lo > i32::MIN || hi < i32::MAX,
+            LeafKind::Str { strict } => strict,
+            LeafKind::IntStr | LeafKind::Data | LeafKind::Raw(_) => true,
+            _ => false,
+        }
+    }
+    fn is_bool(&self) -> bool {
+        matches!(self.kind, LeafKind::Int { flavor: Flavor::Bool, .. })
+    }
+}
+
+#[derive(Clone, Debug, PartialEq, Eq, PartialOrd, Ord)]
+enum Id {
+    Ord(i32),
+    Uuid([u8; 16]),
+    Connless([u8; 8]),
+}
+
+#[derive(Clone, Debug)]
+struct Codec {
+    proto: usize,
+    sec: Sec,
+    name: String,
+    id: Id,
+    leaves: Vec<Leaf>,
+    n_opt: usize,
+    /// boundary values per leaf (filled by `load_world`)
+    bounds: Vec<Vec<Boundary>>,
+}
+
+impl Codec {
+    fn label(&self) -> String {
+        format!("{}/{}/{}", PROTO_NAMES[self.proto], SEC_NAMES[self.sec as usize], self.name)
+    }
+    fn has_bool(&self) -> bool {
+        self.leaves.iter().any(|l| l.is_bool())
+    }
+}
+
+const PROTO_NAMES: [&str; 4] = ["teeworlds-0.5", "teeworlds-0.6", "teeworlds-0.7", "ddnet"];
+const PROTO_FILES: [&str; 4] = [
+    "teeworlds-0.5.json",
+    "teeworlds-0.6.json",
+    "teeworlds-0.7-trunk.json",
+    "ddnet-19.6.json",
+];
+
+fn join_name(v: &Value) -> Result<String, String> {
+    let parts = v.as_array().ok_or_else(|| format!("name is not an array: {}", v))?;
+    let mut out = Vec::new();
+    for p in parts {
+        out.push(p.as_str().ok_or_else(|| format!("name part is not a string: {}", v))?.to_string());
+    }
+    Ok(out.join("_"))
+}
+
+fn parse_uuid(s: &str) -> Result<[u8; 16], String> {
+    let h: String = s.chars().filter(|c| *c != '-').collect();
+    if h.len() != 32 || !h.chars().all(|c| c.is_ascii_hexdigit()) {
+        return Err(format!("bad uuid {:?}", s));
+    }
+    let mut out = [0u8; 16];
+    for i in 0..16 {
+        out[i] = u8::from_str_radix(&h[2 * i..2 * i + 2], 16).unwrap();
+    }
+    Ok(out)
+}
+
+fn as_i32(v: &Value, what: &str) -> Result<i32, String> {
+    v.as_i64()
+        .and_then(|x| i32::try_from(x).ok())
+        .ok_or_else(|| format!("{}: not an int32: {}", what, v))
+}
+
+struct SpecCtx<'a> {
+    enums: BTreeMap<String, (i32, i32)>,
+    flags: BTreeMap<String, u32>,
+    objects: BTreeMap<String, &'a Value>,
+}
+
+fn leaves_of_type(
+    t: &Value,
+    path: &str,
+    sc: &SpecCtx,
+    for_obj: bool,
+    opt: Option<usize>,
+    out: &mut Vec<Leaf>,
+) -> Result<(), String> {
+    let kind = t["kind"].as_str().ok_or_else(|| format!("{}: member type without kind", path))?;
+    let int = |lo: i32, hi: i32, flavor: Flavor| Leaf {
+        path: path.to_string(),
+        kind: LeafKind::Int { lo, hi, flavor },
+        opt,
+    };
+    let other = |kind: LeafKind| Leaf { path: path.to_string(), kind, opt };
+    let msg_only = |k: &str| -> Result<(), String> {
+        if for_obj {
+            Err(format!("{}: member kind {} has no snapshot-object encoding", path, k))
+        } else {
+            Ok(())
+        }
+    };
+    match kind {
+        "array" => {
+            let count = t["count"].as_u64().ok_or_else(|| format!("{}: array without count", path))?;
+            for i in 0..count {
+                leaves_of_type(&t["member_type"], &format!("{}[{}]", path, i), sc, for_obj, opt, out)?;
+            }
+        }
+        "int32" => {
+            let lo = if t.get("min").is_some() { as_i32(&t["min"], path)? } else { i32::MIN };
+            let hi = if t.get("max").is_some() { as_i32(&t["max"], path)? } else { i32::MAX };
+            if lo > hi {
+                return Err(format!("{}: empty int range", path));
+            }
+            let flavor = if lo == i32::MIN && hi == i32::MAX { Flavor::Free } else { Flavor::Range };
+            out.push(int(lo, hi, flavor));
+        }
+        "enum" => {
+            let n = join_name(&t["enum"])?;
+            let &(lo, hi) = sc.enums.get(&n).ok_or_else(|| format!("{}: unknown enum {}", path, n))?;
+            out.push(int(lo, hi, Flavor::Enum));
+        }
+        "flags" => {
+            let n = join_name(&t["flags"])?;
+            let &bits = sc.flags.get(&n).ok_or_else(|| format!("{}: unknown flags {}", path, n))?;
+            out.push(int(i32::MIN, i32::MAX, Flavor::Flags(bits)));
+        }
+        "boolean" => out.push(int(0, 1, Flavor::Bool)),
+        "tick" => out.push(int(i32::MIN, i32::MAX, Flavor::Free)),
+        "tune_param" => {
+            msg_only(kind)?;
+            out.push(int(i32::MIN, i32::MAX, Flavor::Free));
+        }
+        "int32_twstring" => {
+            let count = t["count"].as_u64().ok_or_else(|| format!("{}: twstring without count", path))?;
+            for i in 0..count {
+                out.push(Leaf {
+                    path: format!("{}[{}]", path, i),
+                    kind: LeafKind::Int { lo: i32::MIN, hi: i32::MAX, flavor: Flavor::Free },
+                    opt,
+                });
+            }
+        }
+        "optional" => {
+            // optional members are unwrapped by `member_leaves`; anything else is a nesting the
+            // generator cannot express either
+            return Err(format!("{}: optional nested inside another member type", path));
+        }
+        "string" => {
+            msg_only(kind)?;
+            let strict = t["disallow_cc"].as_bool().ok_or_else(|| format!("{}: string without disallow_cc", path))?;
+            out.push(other(LeafKind::Str { strict }));
+        }
+        "data" => {
+            msg_only(kind)?;
+            out.push(other(LeafKind::Data));
+        }
+        "rest" | "serverinfo_client" => {
+            msg_only(kind)?;
+            out.push(other(LeafKind::Rest));
+        }
+        "packed_addresses" => {
+            msg_only(kind)?;
+            out.push(other(LeafKind::Addrs));
+        }
+        "sha256" => {
+            msg_only(kind)?;
+            out.push(other(LeafKind::Raw(32)));
+        }
+        "uuid" => {
+            msg_only(kind)?;
+            out.push(other(LeafKind::Raw(16)));
+        }
+        "be_uint16" => {
+            msg_only(kind)?;
+            out.push(other(LeafKind::BeU16));
+        }
+        "uint8" => {
+            msg_only(kind)?;
+            out.push(other(LeafKind::U8));
+        }
+        "int32_string" => {
+            msg_only(kind)?;
+            out.push(other(LeafKind::IntStr));
+        }
+        "snapshot_object" => {
+            msg_only(kind)?;
+            let n = join_name(&t["name"])?;
+            let o = sc.objects.get(&n).ok_or_else(|| format!("{}: unknown snapshot object {}", path, n))?;
+            if o.get("super").is_some() {
+                return Err(format!("{}: message encoding of an object with a super type", path));
+            }
+            // the message encoding of an object: its own members as packed ints
+            let mut inner = Vec::new();
+            member_leaves(&o["members"], sc, true, &mut inner)?;
+            for mut l in inner {
+                l.path = format!("{}.{}", path, l.path);
+                l.opt = opt;
+                out.push(l);
+            }
+        }
+        k => return Err(format!("{}: unsupported member kind {:?}", path, k)),
+    }
+    Ok(())
+}
+
+/// Returns the number of optional members.
+fn member_leaves(members: &Value, sc: &SpecCtx, for_obj: bool, out: &mut Vec<Leaf>) -> Result<usize, String> {
+    let members = members.as_array().ok_or("members is not an array")?;
+    let mut n_opt = 0;
+    for (i, m) in members.iter().enumerate() {
+        let name = join_name(&m["name"])?;
+        let t = &m["type"];
+        let kind = t["kind"].as_str().unwrap_or("");
+        if kind == "optional" {
+            if for_obj {
+                return Err(format!("{}: optional member in a snapshot object", name));
+            }
+            leaves_of_type(&t["inner"], &name, sc, for_obj, Some(n_opt), out)?;
+            n_opt += 1;
+        } else {
+            if n_opt > 0 {
+                return Err(format!("{}: mandatory member after an optional one", name));
+            }
+            let before = out.len();
+            leaves_of_type(t, &name, sc, for_obj, None, out)?;
+            let tail_kind = matches!(kind, "rest" | "serverinfo_client" | "packed_addresses" | "snapshot_object");
+            if tail_kind && i + 1 != members.len() {
+                return Err(format!("{}: member of kind {} is not the last one", name, kind));
+            }
+            let _ = before;
+        }
+    }
+    Ok(n_opt)
+}
+
+fn object_leaves(o: &Value, sc: &SpecCtx, depth: usize, out: &mut Vec<Leaf>) -> Result<(), String> {
+    if depth > 8 {
+        return Err("super chain too deep".into());
+    }
+    if let Some(s) = o.get("super") {
+        let n = join_name(s)?;
+        let sup = sc.objects.get(&n).ok_or_else(|| format!("unknown super object {}", n))?;
+        object_leaves(sup, sc, depth + 1, out)?;
+    }
+    let n_opt = member_leaves(&o["members"], sc, true, out)?;
+    debug_assert_eq!(n_opt, 0);
+    Ok(())
+}
+
+fn parse_spec(proto: usize, v: &Value) -> Result<Vec<Codec>, String> {
+    let mut sc = SpecCtx { enums: BTreeMap::new(), flags: BTreeMap::new(), objects: BTreeMap::new() };
+    for e in v["game_enumerations"].as_array().ok_or("no game_enumerations")? {
+        let name = join_name(&e["name"])?;
+        let mut vals: Vec<i32> = Vec::new();
+        for x in e["values"].as_array().ok_or("enum without values")? {
+            vals.push(as_i32(&x["value"], &name)?);
+        }
+        vals.sort();
+        if vals.is_empty() || vals.iter().enumerate().any(|(i, &x)| x != vals[0] + i as i32) {
+            return Err(format!("enum {} is not contiguous", name));
+        }
+        sc.enums.insert(name, (vals[0], *vals.last().unwrap()));
+    }
+    for e in v["game_flags"].as_array().ok_or("no game_flags")? {
+        let name = join_name(&e["name"])?;
+        let mut vals: Vec<i64> = Vec::new();
+        for x in e["values"].as_array().ok_or("flags without values")? {
+            vals.push(x["value"].as_i64().ok_or("flag value")?);
+        }
+        vals.sort();
+        if vals.iter().enumerate().any(|(i, &x)| x != 1i64 << i) || vals.len() > 32 {
+            return Err(format!("flags {} are not contiguous bits", name));
+        }
+        sc.flags.insert(name, vals.len() as u32);
+    }
+    let objs = v["snapshot_objects"].as_array().ok_or("no snapshot_objects")?;
+    for o in objs {
+        sc.objects.insert(join_name(&o["name"])?, o);
+    }
+    let mut out = Vec::new();
+    for (key, sec) in [("system_messages", Sec::System), ("game_messages", Sec::Game)] {
+        for m in v[key].as_array().ok_or_else(|| format!("no {}", key))? {
+            let name = join_name(&m["name"])?;
+            let id = match &m["id"] {
+                Value::Number(_) => {
+                    let i = as_i32(&m["id"], &name)?;
+                    if i <= 0 {
+                        return Err(format!("{}: message ordinal {} cannot be encoded", name, i));
+                    }
+                    Id::Ord(i)
+                }
+                Value::String(s) => Id::Uuid(parse_uuid(s)?),
+                x => return Err(format!("{}: bad id {}", name, x)),
+            };
+            let mut leaves = Vec::new();
+            let n_opt = member_leaves(&m["members"], &sc, false, &mut leaves).map_err(|e| format!("{}: {}", name, e))?;
+            out.push(Codec { proto, sec, name, id, leaves, n_opt, bounds: Vec::new() });
+        }
+    }
+    for m in v["connless_messages"].as_array().ok_or("no connless_messages")? {
+        let name = join_name(&m["name"])?;
+        let idv = m["id"].as_array().ok_or("connless id")?;
+        if idv.len() != 8 {
+            return Err(format!("{}: connless id is not 8 bytes", name));
+        }
+        let mut id = [0u8; 8];
+        for (i, b) in idv.iter().enumerate() {
+            id[i] = b.as_u64().filter(|x| *x < 256).ok_or("connless id byte")? as u8;
+        }
+        let mut leaves = Vec::new();
+        let n_opt = member_leaves(&m["members"], &sc, false, &mut leaves).map_err(|e| format!("{}: {}", name, e))?;
+        out.push(Codec { proto, sec: Sec::Connless, name, id: Id::Connless(id), leaves, n_opt, bounds: Vec::new() });
+    }
+    for o in objs {
+        let name = join_name(&o["name"])?;
+        let id = match &o["id"] {
+            Value::Number(_) => {
+                let i = as_i32(&o["id"], &name)?;
+                if !(0..=0xffff).contains(&i) {
+                    return Err(format!("{}: object ordinal {} out of range", name, i));
+                }
+                Id::Ord(i)
+            }
+            Value::String(s) => Id::Uuid(parse_uuid(s)?),
+            x => return Err(format!("{}: bad id {}", name, x)),
+        };
+        let mut leaves = Vec::new();
+        object_leaves(o, &sc, 0, &mut leaves).map_err(|e| format!("{}: {}", name, e))?;
+        out.push(Codec { proto, sec: Sec::Obj, name, id, leaves, n_opt: 0, bounds: Vec::new() });
+    }
+    Ok(out)
+}
+
+// ---------------------------------------------------------------------------
+// Driving the generated crates through their generic entry points
+
+pub struct MsgOut {
+    ok: bool,
+    err: String,
+    warnings: Vec<String>,
+    /// re-encoding of the decoded value (only when requested and decode succeeded)
+    reenc: Option<Result<Vec<u8>, String>>,
+}
+
+pub struct ObjOut {
+    ok: bool,
+    err: String,
+    warnings: Vec<String>,
+    words: Option<Result<Vec<i32>, String>>,
+    type_id: Option<TypeId>,
+}
+
+type MsgFn = fn(&[u8], bool) -> Result<MsgOut, String>;
+type ObjFn = fn(TypeId, &[i32], bool) -> Result<ObjOut, String>;
+
+#[inline(never)]
+fn dirty_stack() -> u8 {
+    // Fill the part of the stack the next call will use with a non-zero pattern so that padding
+    // bytes inside returned structs are unlikely to be zero by accident.
+    let mut a = [0xA5u8; 3072];
+    std::hint::black_box(&mut a);
+    a[17]
+}
+
+macro_rules! msg_driver {
+    ($fname:ident, $ty:path, $what:expr) => {
+        pub fn $fname(b: &[u8], enc: bool) -> Result<MsgOut, String> {
+            let mut w = Warnings::new();
+            let mut u = Unpacker::new(b);
+            let r = guard(|| <$ty>::decode(&mut w, &mut u)).map_err(|p| format!("{}::decode: {}", $what, p))?;
+            Ok(match r {
+                Err(e) => MsgOut { ok: false, err: format!("{:?}", e), warnings: w.0, reenc: None },
+                Ok(m) => {
+                    let reenc = if enc {
+                        let mut buf: Vec<u8> = Vec::with_capacity(b.len() + 64);
+                        Some(match guard(|| with_packer(&mut buf, |p| m.encode(p).map(|s| s.to_vec()))) {
+                            Ok(Ok(v)) => Ok(v),
+                            Ok(Err(_)) => Err(format!("{}::encode: CapacityError with {} spare bytes", $what, b.len() + 64)),
+                            Err(p) => Err(format!("{}::encode: {}", $what, p)),
+                        })
+                    } else {
+                        None
+                    };
+                    MsgOut { ok: true, err: String::new(), warnings: w.0, reenc }
+                }
+            })
+        }
+    };
+}
+
+macro_rules! proto_driver {
+    ($m:ident, $k:ident) => {
+        mod $m {
+            use super::*;
+            msg_driver!(system, $k::msg::System, "System");
+            msg_driver!(game, $k::msg::Game, "Game");
+            msg_driver!(connless, $k::msg::Connless, "Connless");
+            pub fn obj(tid: TypeId, words: &[i32], enc: bool) -> Result<ObjOut, String> {
+                let mut w = Warnings::new();
+                let mut u = IntUnpacker::new(words);
+                std::hint::black_box(dirty_stack());
+                let r = guard(|| $k::snap_obj::SnapObj::decode_obj(&mut w, tid, &mut u))
+                    .map_err(|p| format!("SnapObj::decode_obj: {}", p))?;
+                Ok(match r {
+                    Err(e) => ObjOut { ok: false, err: format!("{:?}", e), warnings: w.0, words: None, type_id: None },
+                    Ok(o) => {
+                        let type_id = Some(o.obj_type_id());
+                        let words = if enc {
+                            Some(guard(|| o.encode().to_vec()).map_err(|p| format!("SnapObj::encode: {}", p)))
+                        } else {
+                            None
+                        };
+                        ObjOut { ok: true, err: String::new(), warnings: w.0, words, type_id }
+                    }
+                })
+            }
+            pub fn obj_size(t: u16) -> Option<u32> {
+                $k::snap_obj::obj_size(t)
+            }
+        }
+    };
+}
+
+proto_driver!(tw05, libtw2_gamenet_teeworlds_0_5);
+proto_driver!(tw06, libtw2_gamenet_teeworlds_0_6);
+proto_driver!(tw07, libtw2_gamenet_teeworlds_0_7);
+proto_driver!(ddnet, libtw2_gamenet_ddnet);
+
+struct Driver {
+    msg: [MsgFn; 3],
+    obj: ObjFn,
+    obj_size: fn(u16) -> Option<u32>,
+}
+
+const DRIVERS: [Driver; 4] = [
+    Driver { msg: [tw05::system, tw05::game, tw05::connless], obj: tw05::obj, obj_size: tw05::obj_size },
+    Driver { msg: [tw06::system, tw06::game, tw06::connless], obj: tw06::obj, obj_size: tw06::obj_size },
+    Driver { msg: [tw07::system, tw07::game, tw07::connless], obj: tw07::obj, obj_size: tw07::obj_size },
+    Driver { msg: [ddnet::system, ddnet::game, ddnet::connless], obj: ddnet::obj, obj_size: ddnet::obj_size },
+];
+
+// ---------------------------------------------------------------------------
+// Values and wire format
+
+#[derive(Clone, Debug, PartialEq)]
+enum Val {
+    I(i32),
+    B(Vec<u8>),
+    /// arbitrary wire bytes replacing the canonical encoding of this leaf (messages only)
+    Wire(Vec<u8>),
+    Absent,
+}
+
+fn emit_leaf(out: &mut Vec<u8>, leaf: &Leaf, v: &Val) {
+    match (v, &leaf.kind) {
+        (Val::Absent, _) => {}
+        (Val::Wire(b), _) => out.extend_from_slice(b),
+        (Val::I(x), LeafKind::Int { .. }) => put_int(out, *x),
+        (Val::I(x), LeafKind::BeU16) => out.extend_from_slice(&(*x as u16).to_be_bytes()),
+        (Val::I(x), LeafKind::U8) => out.push(*x as u8),
+        (Val::I(x), LeafKind::IntStr) => {
+            out.extend_from_slice(format!("{}", x).as_bytes());
+            out.push(0);
+        }
+        (Val::B(b), LeafKind::Str { .. }) => {
+            out.extend_from_slice(b);
+            out.push(0);
+        }
+        (Val::B(b), LeafKind::Data) => {
+            put_int(out, b.len() as i32);
+            out.extend_from_slice(b);
+        }
+        (Val::B(b), LeafKind::Rest | LeafKind::Addrs | LeafKind::Raw(_)) => out.extend_from_slice(b),
+        (v, k) => panic!("harness bug: value {:?} does not fit leaf kind {:?}", v, k),
+    }
+}
+
+fn emit_id(out: &mut Vec<u8>, sec: Sec, id: &Id) {
+    let flag = if sec == Sec::System { 1 } else { 0 };
+    match id {
+        Id::Ord(i) => put_int(out, (*i << 1) | flag),
+        Id::Uuid(u) => {
+            put_int(out, flag);
+            out.extend_from_slice(u);
+        }
+        Id::Connless(c) => out.extend_from_slice(c),
+    }
+}
+
+fn wire_msg(c: &Codec, vals: &[Val]) -> Vec<u8> {
+    let mut out = Vec::new();
+    emit_id(&mut out, c.sec, &c.id);
+    for (l, v) in c.leaves.iter().zip(vals) {
+        emit_leaf(&mut out, l, v);
+    }
+    out
+}
+
+fn words_obj(vals: &[Val]) -> Vec<i32> {
+    vals.iter()
+        .map(|v| match v {
+            Val::I(x) => *x,
+            v => panic!("harness bug: object value {:?}", v),
+        })
+        .collect()
+}
+
+fn type_id_of(id: &Id) -> TypeId {
+    match id {
+        Id::Ord(i) => TypeId::Ordinal(*i as u16),
+        Id::Uuid(u) => TypeId::Uuid(uuid::Uuid::from_bytes(*u)),
+        Id::Connless(_) => panic!("harness bug: connless id for an object"),
+    }
+}
+
+// ---------------------------------------------------------------------------
+// Boundary values per leaf
+
+#[derive(Clone, Debug)]
+struct Boundary {
+    val: Val,
+    valid: bool,
+    label: String,
+}
+
+fn ramp(n: usize, start: u8) -> Vec<u8> {
+    (0..n).map(|i| start.wrapping_add(i as u8)).collect()
+}
+
+fn default_val(l: &Leaf) -> Val {
+    match &l.kind {
+        LeafKind::Int { lo, hi, .. } => Val::I(if *lo <= 0 && 0 <= *hi { 0 } else { *lo }),
+        LeafKind::Str { .. } => Val::B(b"x".to_vec()),
+        LeafKind::Data => Val::B(vec![1, 2]),
+        LeafKind::Rest => Val::B(vec![7, 0, 9]),
+        LeafKind::Addrs => Val::B(ramp(18, 1)),
+        LeafKind::Raw(n) => Val::B(ramp(*n, 0x10)),
+        LeafKind::BeU16 => Val::I(0x1234),
+        LeafKind::U8 => Val::I(0x5a),
+        LeafKind::IntStr => Val::I(7),
+    }
+}
+
+fn boundaries(l: &Leaf) -> Vec<Boundary> {
+    let mut out: Vec<Boundary> = Vec::new();
+    let mut push = |val: Val, valid: bool, label: String| {
+        if !out.iter().any(|b| b.val == val) {
+            out.push(Boundary { val, valid, label });
+        }
+    };
+    match &l.kind {
+        LeafKind::Int { lo, hi, flavor } => {
+            let (lo, hi) = (*lo, *hi);
+            let inside = |v: i64| v >= lo as i64 && v <= hi as i64;
+            let mut cands: Vec<i64> = vec![0, 1, -1, lo as i64, hi as i64, lo as i64 + 1, hi as i64 - 1];
+            match flavor {
+                Flavor::Enum => cands.extend(lo as i64..=hi as i64),
+                Flavor::Flags(bits) => {
+                    for i in 0..*bits {
+                        cands.push((1u32 << i) as i32 as i64);
+                    }
+                    cands.push((((1u64 << *bits) - 1) as u32) as i32 as i64);
+                }
+                _ => {}
+            }
+            cands.extend([
+                (lo as i64 + hi as i64) / 2,
+                63,
+                64,
+                -64,
+                -65,
+                8191,
+                8192,
+                -8193,
+                1 << 20,
+                -(1 << 20) - 1,
+                1 << 27,
+                -(1 << 27) - 1,
+                i32::MIN as i64,
+                i32::MAX as i64,
+            ]);
+            for c in cands {
+                if inside(c) {
+                    push(Val::I(c as i32), true, format!("{}", c));
+                }
+            }
+            let mut bad: Vec<i64> = vec![lo as i64 - 1, hi as i64 + 1, i32::MIN as i64, i32::MAX as i64];
+            if *flavor == Flavor::Bool {
+                bad.extend([2, 255, 256, 257, 65536, 1 << 24]);
+            } else {
+                bad.extend([hi as i64 + 256, lo as i64 - 256]);
+            }
+            for c in bad {
+                if !inside(c) && c >= i32::MIN as i64 && c <= i32::MAX as i64 {
+                    push(Val::I(c as i32), false, format!("{}", c));
+                }
+            }
+        }
+        LeafKind::Str { strict } => {
+            push(Val::B(vec![]), true, "empty".into());
+            push(Val::B(b"a".to_vec()), true, "a".into());
+            push(Val::B(b" ".to_vec()), true, "space".into());
+            push(Val::B(b"hello world ~!".to_vec()), true, "ascii".into());
+            push(Val::B("\u{e4}\u{20ac}\u{1d11e}".as_bytes().to_vec()), true, "utf8".into());
+            push(Val::B(vec![b'x'; 300]), true, "long300".into());
+            push(Val::B(vec![0x20; 40]), true, "spaces40".into());
+            for cc in 1u8..32 {
+                push(Val::B(vec![b'a', cc, b'b']), !*strict, format!("cc{:02x}_mid", cc));
+            }
+            for cc in [1u8, 9, 10, 13, 27, 31] {
+                push(Val::B(vec![cc]), !*strict, format!("cc{:02x}_alone", cc));
+                push(Val::B(vec![cc, b'z']), !*strict, format!("cc{:02x}_first", cc));
+                push(Val::B(vec![b'z', cc]), !*strict, format!("cc{:02x}_last", cc));
+            }
+            if !*strict {
+                push(Val::B(vec![0x7f, 0x80, 0xff]), true, "high".into());
+            }
+        }
+        LeafKind::Data => {
+            push(Val::B(vec![]), true, "empty".into());
+            push(Val::B(vec![0]), true, "zero".into());
+            push(Val::B(vec![0xff]), true, "ff".into());
+            push(Val::B(ramp(63, 0)), true, "len63".into());
+            push(Val::B(ramp(64, 0)), true, "len64".into());
+            push(Val::B(ramp(256, 0)), true, "ramp256".into());
+            push(Val::B(vec![0; 300]), true, "zeros300".into());
+            push(Val::Wire(int_bytes(-1)), false, "len-1".into());
+            push(Val::Wire(int_bytes(i32::MIN)), false, "lenMIN".into());
+            push(Val::Wire(int_bytes(i32::MAX)), false, "lenMAX".into());
+        }
+        LeafKind::Rest => {
+            push(Val::B(vec![]), true, "empty".into());
+            push(Val::B(vec![0]), true, "zero".into());
+            push(Val::B(ramp(5, 250)), true, "some".into());
+            push(Val::B(ramp(300, 0)), true, "ramp300".into());
+        }
+        LeafKind::Addrs => {
+            push(Val::B(vec![]), true, "none".into());
+            push(Val::B(ramp(18, 1)), true, "one".into());
+            push(Val::B(ramp(54, 0xf0)), true, "three".into());
+            push(Val::B(vec![0xff; 18 * 20]), true, "twenty".into());
+        }
+        LeafKind::Raw(n) => {
+            push(Val::B(vec![0; *n]), true, "zeros".into());
+            push(Val::B(vec![0xff; *n]), true, "ff".into());
+            push(Val::B(ramp(*n, 0x10)), true, "ramp".into());
+            push(Val::B(ramp(*n, 0xf8)), true, "ramp_wrap".into());
+        }
+        LeafKind::BeU16 => {
+            for v in [0, 1, 255, 256, 0x1234, 0x8000, 0xffff] {
+                push(Val::I(v), true, format!("{}", v));
+            }
+        }
+        LeafKind::U8 => {
+            for v in [0, 1, 127, 128, 255] {
+                push(Val::I(v), true, format!("{}", v));
+            }
+        }
+        LeafKind::IntStr => {
+            for v in [0, 1, -1, 9, 10, -10, 1000000, i32::MIN, i32::MAX] {
+                push(Val::I(v), true, format!("{}", v));
+            }
+            for s in [
+                "", "a", "1a", "a1", " 1", "1 ", "2147483648", "-2147483649", "1.0", "--1", "-", "+", "99999999999999999999",
+                "0x10", "1e3", "\u{0661}",
+            ] {
+                let mut w = s.as_bytes().to_vec();
+                w.push(0);
+                push(Val::Wire(w), false, format!("str{:?}", s));
+            }
+        }
+    }
+    out
+}
+
+// ---------------------------------------------------------------------------
+// Reference model: does the described layout accept these bytes?
+
+#[derive(Clone, Copy, Debug, PartialEq, Eq)]
+enum Verdict {
+    /// matches the layout
+    Accept,
+    /// matches the layout and is followed by excess data
+    AcceptExcess,
+    Reject,
+    /// the descriptions do not decide this input
+    DontCare,
+}
+
+#[derive(Clone, Debug)]
+struct Model {
+    verdict: Verdict,
+    why: String,
+    /// every integer shortest, nothing left over: the bytes are exactly what an encoder emits
+    canonical: bool,
+    absent_opt: bool,
+    codec: Option<usize>,
+}
+
+impl Model {
+    fn new(verdict: Verdict, why: impl Into<String>) -> Model {
+        Model { verdict, why: why.into(), canonical: false, absent_opt: false, codec: None }
+    }
+}
+
+enum Fail {
+    End(&'static str),
+    Constraint(String),
+    Unsure(&'static str),
+}
+
+struct Cursor<'a> {
+    b: &'a [u8],
+    pos: usize,
+    canonical: bool,
+    fringe: Option<&'static str>,
+}
+
+impl<'a> Cursor<'a> {
+    fn rest(&self) -> &'a [u8] {
+        &self.b[self.pos..]
+    }
+    fn int(&mut self) -> Result<i32, Fail> {
+        let (v, n, clean) = get_int(self.rest()).ok_or(Fail::End("integer cut short"))?;
+        if !clean {
+            return Err(Fail::Unsure("non-zero integer padding"));
+        }
+        if int_bytes(v) != self.rest()[..n] {
+            self.canonical = false;
+        }
+        self.pos += n;
+        Ok(v)
+    }
+    fn string(&mut self) -> Result<&'a [u8], Fail> {
+        let r = self.rest();
+        let n = r.iter().position(|&b| b == 0).ok_or(Fail::End("string without terminator"))?;
+        self.pos += n + 1;
+        Ok(&r[..n])
+    }
+    fn raw(&mut self, n: usize) -> Result<&'a [u8], Fail> {
+        let r = self.rest();
+        if r.len() < n {
+            return Err(Fail::End("raw bytes cut short"));
+        }
+        self.pos += n;
+        Ok(&r[..n])
+    }
+    fn step(&mut self, leaf: &Leaf) -> Result<(), Fail> {
+        match &leaf.kind {
+            LeafKind::Int { lo, hi, .. } => {
+                let v = self.int()?;
+                if v < *lo || v > *hi {
+                    return Err(Fail::Constraint(format!("{} = {} outside {}..={}", leaf.path, v, lo, hi)));
+                }
+            }
+            LeafKind::Str { strict } => {
+                let s = self.string()?;
+                if *strict && s.iter().any(|&b| b < 0x20) {
+                    return Err(Fail::Constraint(format!("{}: control character", leaf.path)));
+                }
+            }
+            LeafKind::Data => {
+                let n = self.int()?;
+                if n < 0 {
+                    return Err(Fail::End("negative data length"));
+                }
+                self.raw(n as usize).map_err(|_| Fail::End("data cut short"))?;
+            }
+            LeafKind::Rest => self.pos = self.b.len(),
+            LeafKind::Addrs => {
+                if self.rest().len() % 18 != 0 {
+                    self.canonical = false;
+                }
+                self.pos = self.b.len();
+            }
+            LeafKind::Raw(n) => {
+                self.raw(*n)?;
+            }
+            LeafKind::BeU16 => {
+                self.raw(2)?;
+            }
+            LeafKind::U8 => {
+                self.raw(1)?;
+            }
+            LeafKind::IntStr => {
+                let s = self.string()?;
+                let digits = match s.first() {
+                    Some(b'+') | Some(b'-') => &s[1..],
+                    _ => s,
+                };
+                if digits.is_empty() || !digits.iter().all(|b| b.is_ascii_digit()) {
+                    return Err(Fail::Constraint(format!("{}: not a decimal integer", leaf.path)));
+                }
+                let mut v: i128 = 0;
+                for d in digits.iter().take(30) {
+                    v = v * 10 + (*d - b'0') as i128;
+                }
+                if digits.len() > 30 {
+                    v = i128::MAX / 4;
+                }
+                if s[0] == b'-' {
+                    v = -v;
+                }
+                if v < i32::MIN as i128 || v > i32::MAX as i128 {
+                    return Err(Fail::Constraint(format!("{}: decimal integer outside int32", leaf.path)));
+                }
+                if format!("{}", v).as_bytes() != s {
+                    // "+5", "007", "-0": the description does not say
+                    self.fringe = Some("non-canonical decimal integer string");
+                    self.canonical = false;
+                }
+            }
+        }
+        Ok(())
+    }
+}
+
+fn model_payload(c: &Codec, ci: usize, payload: &[u8], id_canonical: bool) -> Model {
+    let mut cur = Cursor { b: payload, pos: 0, canonical: id_canonical, fringe: None };
+    let mut absent = false;
+    let mut sloppy_absent = false;
+    for leaf in &c.leaves {
+        let at = cur.pos;
+        match cur.step(leaf) {
+            Ok(()) => {}
+            Err(Fail::Unsure(w)) => {
+                let mut m = Model::new(Verdict::DontCare, w);
+                m.codec = Some(ci);
+                return m;
+            }
+            Err(Fail::End(w)) => {
+                if leaf.opt.is_some() {
+                    absent = true;
+                    if at < payload.len() {
+                        sloppy_absent = true;
+                    }
+                    cur.pos = payload.len();
+                } else {
+                    let mut m = Model::new(Verdict::Reject, format!("{} ({})", w, leaf.path));
+                    m.codec = Some(ci);
+                    return m;
+                }
+            }
+            Err(Fail::Constraint(w)) => {
+                if leaf.opt.is_some() {
+                    absent = true;
+                    sloppy_absent = true;
+                } else {
+                    let mut m = Model::new(Verdict::Reject, w);
+                    m.codec = Some(ci);
+                    return m;
+                }
+            }
+        }
+    }
+    let excess = payload.len() - cur.pos;
+    let (verdict, why) = if sloppy_absent {
+        (Verdict::DontCare, "optional member absent although bytes were left".to_string())
+    } else if let Some(f) = cur.fringe {
+        (Verdict::DontCare, f.to_string())
+    } else if excess > 0 {
+        (Verdict::AcceptExcess, format!("{} excess bytes", excess))
+    } else {
+        (Verdict::Accept, String::new())
+    };
+    Model { verdict, why, canonical: cur.canonical && excess == 0, absent_opt: absent, codec: Some(ci) }
+}
+
+struct World {
+    codecs: Vec<Codec>,
+    /// (proto, sec, id) -> codec index
+    index: BTreeMap<(usize, Sec, Id), usize>,
+    /// per (proto, sec): codec indices
+    by_sec: Vec<Vec<usize>>,
+    /// codec indices whose encode() comparison is excluded because of a listed known finding
+    skip_encode: Vec<bool>,
+}
+
+impl World {
+    fn sec_list(&self, proto: usize, sec: Sec) -> &[usize] {
+        &self.by_sec[proto * 4 + sec as usize]
+    }
+
+    fn model_msg(&self, proto: usize, entry: Sec, bytes: &[u8]) -> Model {
+        if entry == Sec::Connless {
+            if bytes.len() < 8 {
+                return Model::new(Verdict::Reject, "connless id cut short");
+            }
+            let mut id = [0u8; 8];
+            id.copy_from_slice(&bytes[..8]);
+            return match self.index.get(&(proto, Sec::Connless, Id::Connless(id))) {
+                None => Model::new(Verdict::Reject, "unknown connless id"),
+                Some(&ci) => model_payload(&self.codecs[ci], ci, &bytes[8..], true),
+            };
+        }
+        let Some((v, n, clean)) = get_int(bytes) else {
+            return Model::new(Verdict::Reject, "message id cut short");
+        };
+        if !clean {
+            return Model::new(Verdict::DontCare, "non-zero padding in the message id");
+        }
+        let id_canonical = int_bytes(v) == bytes[..n];
+        let sys = v & 1 != 0;
+        let m = v >> 1;
+        let mut pos = n;
+        let id = if m != 0 {
+            Id::Ord(m)
+        } else {
+            if bytes.len() < pos + 16 {
+                return Model::new(Verdict::Reject, "uuid of the message id cut short");
+            }
+            let mut u = [0u8; 16];
+            u.copy_from_slice(&bytes[pos..pos + 16]);
+            pos += 16;
+            Id::Uuid(u)
+        };
+        if sys != (entry == Sec::System) {
+            return Model::new(Verdict::Reject, "system flag does not match the entry point");
+        }
+        match self.index.get(&(proto, entry, id)) {
+            None => Model::new(Verdict::Reject, "unknown message id"),
+            Some(&ci) => model_payload(&self.codecs[ci], ci, &bytes[pos..], id_canonical),
+        }
+    }
+
+    fn model_obj(&self, proto: usize, id: &Id, words: &[i32]) -> Model {
+        let Some(&ci) = self.index.get(&(proto, Sec::Obj, id.clone())) else {
+            return Model::new(Verdict::Reject, "unknown object type");
+        };
+        let c = &self.codecs[ci];
+        for (i, leaf) in c.leaves.iter().enumerate() {
+            let LeafKind::Int { lo, hi, .. } = leaf.kind else { panic!("harness bug: object leaf kind") };
+            let Some(&v) = words.get(i) else {
+                let mut m = Model::new(Verdict::Reject, format!("object cut short at {}", leaf.path));
+                m.codec = Some(ci);
+                return m;
+            };
+            if v < lo || v > hi {
+                let mut m = Model::new(Verdict::Reject, format!("{} = {} outside {}..={}", leaf.path, v, lo, hi));
+                m.codec = Some(ci);
+                return m;
+            }
+        }
+        let excess = words.len() - c.leaves.len();
+        Model {
+            verdict: if excess > 0 { Verdict::AcceptExcess } else { Verdict::Accept },
+            why: if excess > 0 { format!("{} excess words", excess) } else { String::new() },
+            canonical: excess == 0,
+            absent_opt: false,
+            codec: Some(ci),
+        }
+    }
+}
+
+// ---------------------------------------------------------------------------
+// Oracles: library against the model
+
+fn judge(m: &Model, ok: bool, err: &str, warnings: &[String], what: &str) -> Result<(), String> {
+    match m.verdict {
+        Verdict::Accept => {
+            ensure!(ok, "{}: the description accepts these bytes but decode returned Err({})", what, err);
+            if m.canonical {
+                ensure!(warnings.is_empty(), "{}: canonical input decoded with warnings {:?}", what, warnings);
+            }
+        }
+        Verdict::AcceptExcess => {
+            if ok {
+                ensure!(
+                    warnings.iter().any(|w| w.contains("ExcessData")),
+                    "{}: input with {} was accepted without an ExcessData warning (warnings {:?})",
+                    what,
+                    m.why,
+                    warnings
+                );
+            }
+        }
+        Verdict::Reject => {
+            ensure!(!ok, "{}: decode accepted bytes that violate the description: {}", what, m.why);
+        }
+        Verdict::DontCare => {}
+    }
+    Ok(())
+}
+
+/// Decode `bytes` through `entry` of `proto` and compare with the model. Returns the model verdict.
+fn check_msg_bytes(w: &World, proto: usize, entry: Sec, bytes: &[u8]) -> Result<Model, String> {
+    let m = w.model_msg(proto, entry, bytes);
+    let want_enc = m.verdict == Verdict::Accept && m.canonical && !m.absent_opt;
+    let what = match m.codec {
+        Some(ci) => format!("{} [{}]", w.codecs[ci].label(), hex(bytes)),
+        None => format!("{}/{} [{}]", PROTO_NAMES[proto], SEC_NAMES[entry as usize], hex(bytes)),
+    };
+    let out = (DRIVERS[proto].msg[entry as usize])(bytes, want_enc).map_err(|p| format!("{}: {}", what, p))?;
+    judge(&m, out.ok, &out.err, &out.warnings, &what)?;
+    if want_enc {
+        match out.reenc {
+            Some(Ok(b2)) => ensure!(
+                b2 == bytes,
+                "{}: canonical bytes re-encode differently: [{}]",
+                what,
+                hex(&b2)
+            ),
+            Some(Err(e)) => return Err(format!("{}: re-encoding the decoded value failed: {}", what, e)),
+            None => return Err(format!("{}: harness bug, no re-encoding", what)),
+        }
+    }
+    Ok(m)
+}
+
+fn check_obj_words(w: &World, proto: usize, id: &Id, words: &[i32]) -> Result<Model, String> {
+    let m = w.model_obj(proto, id, words);
+    let what = match m.codec {
+        Some(ci) => format!("{} {:?}", w.codecs[ci].label(), words),
+        None => format!("{}/snap_obj type {:?} {:?}", PROTO_NAMES[proto], id, words),
+    };
+    let want_enc = m.verdict == Verdict::Accept;
+    let out = (DRIVERS[proto].obj)(type_id_of(id), words, want_enc).map_err(|p| format!("{}: {}", what, p))?;
+    judge(&m, out.ok, &out.err, &out.warnings, &what)?;
+    if want_enc {
+        let ci = m.codec.unwrap();
+        ensure_eq!(out.type_id, Some(type_id_of(id)), "{}: obj_type_id() of the decoded object", what);
+        if let Id::Ord(i) = id {
+            ensure_eq!(
+                (DRIVERS[proto].obj_size)(*i as u16),
+                Some(words.len() as u32),
+                "{}: obj_size({}) against the described word count",
+                what,
+                i
+            );
+        }
+        if !w.skip_encode[ci] {
+            match out.words {
+                Some(Ok(w2)) => ensure!(w2 == words, "{}: encode() re-exposes different words: {:?}", what, w2),
+                Some(Err(e)) => return Err(format!("{}: {}", what, e)),
+                None => return Err(format!("{}: harness bug, no re-encoding", what)),
+            }
+        }
+    }
+    Ok(m)
+}
+
+// ---------------------------------------------------------------------------
+// Boundary sweep (complete enumeration of codec x member x boundary)
+
+#[derive(Clone, Copy, Debug)]
+struct SweepItem {
+    codec: u32,
+    /// u32::MAX: optional-presence pattern, `b` = number of optional members present
+    leaf: u32,
+    b: u32,
+}
+
+fn default_vals(c: &Codec, present: usize) -> Vec<Val> {
+    c.leaves
+        .iter()
+        .map(|l| match l.opt {
+            Some(g) if g >= present => Val::Absent,
+            _ => default_val(l),
+        })
+        .collect()
+}
+
+fn sweep_table(w: &World, objs: bool) -> Vec<SweepItem> {
+    let mut t = Vec::new();
+    for (ci, c) in w.codecs.iter().enumerate() {
+        if (c.sec == Sec::Obj) != objs {
+            continue;
+        }
+        for p in 0..=c.n_opt {
+            t.push(SweepItem { codec: ci as u32, leaf: u32::MAX, b: p as u32 });
+        }
+        for li in 0..c.leaves.len() {
+            for (bi, b) in c.bounds[li].iter().enumerate() {
+                if objs && !matches!(b.val, Val::I(_)) {
+                    continue;
+                }
+                t.push(SweepItem { codec: ci as u32, leaf: li as u32, b: bi as u32 });
+            }
+        }
+    }
+    t
+}
+
+fn sweep_case(w: &World, it: SweepItem) -> (Vec<Val>, bool, bool, String) {
+    // -> (values, expected valid, constrained boundary, description)
+    let c = &w.codecs[it.codec as usize];
+    if it.leaf == u32::MAX {
+        let vals = default_vals(c, it.b as usize);
+        return (vals, true, false, format!("{} optional members present: {} of {}", c.label(), it.b, c.n_opt));
+    }
+    let mut vals = default_vals(c, c.n_opt);
+    let l = &c.leaves[it.leaf as usize];
+    let b = &c.bounds[it.leaf as usize][it.b as usize];
+    vals[it.leaf as usize] = b.val.clone();
+    (vals, b.valid, l.constrained(), format!("{} {} = {}", c.label(), l.path, b.label))
+}
+
+fn check_sweep(w: &World, it: SweepItem) -> Result<bool, String> {
+    let c = &w.codecs[it.codec as usize];
+    let (vals, valid, constrained, desc) = sweep_case(w, it);
+    let m = if c.sec == Sec::Obj {
+        let words = words_obj(&vals);
+        check_obj_words(w, c.proto, &c.id, &words).map_err(|e| format!("{}: {}", desc, e))?
+    } else {
+        let bytes = wire_msg(c, &vals);
+        check_msg_bytes(w, c.proto, c.sec, &bytes).map_err(|e| format!("{}: {}", desc, e))?
+    };
+    // self-check of the harness: the model must agree with how the case was constructed
+    ensure_eq!(m.codec, Some(it.codec as usize), "harness bug: {}: model resolved another codec", desc);
+    if valid {
+        ensure!(
+            m.verdict == Verdict::Accept && m.canonical,
+            "harness bug: {}: constructed as canonical but the model says {:?} ({})",
+            desc,
+            m.verdict,
+            m.why
+        );
+    } else {
+        ensure!(
+            m.verdict == Verdict::Reject,
+            "harness bug: {}: constructed as a violation but the model says {:?} ({})",
+            desc,
+            m.verdict,
+            m.why
+        );
+    }
+    Ok(constrained || it.leaf == u32::MAX && c.n_opt > 0)
+}
+
+// ---------------------------------------------------------------------------
+// Generated value vectors with one optional mutation
+
+#[derive(Clone, Debug, Hash, Serialize, Deserialize)]
+pub struct Pick {
+    /// boundary selector (mapped monotonically onto the leaf's valid boundaries)
+    pub sel: u16,
+    /// when set, a value derived from `rnd` is used instead of a boundary
+    pub use_rnd: bool,
+    pub rnd: i32,
+}
+
+#[derive(Clone, Debug, Hash, Serialize, Deserialize)]
+pub enum Mutation {
+    None,
+    /// strict prefix of the bytes / words
+    Truncate(u16),
+    /// bytes appended (for objects: one word per byte)
+    Excess(Vec<u8>),
+    /// one leaf gets an out-of-constraint boundary
+    Invalid { leaf: u16, which: u16 },
+    /// xor one byte / replace one word
+    Flip { pos: u16, xor: u8, word: i32 },
+    Insert { pos: u16, byte: u8 },
+    Delete { pos: u16 },
+    /// hand the bytes to another entry point of the same protocol (messages only)
+    OtherEntry(u8),
+}
+
+#[derive(Clone, Debug, Hash, Serialize, Deserialize)]
+pub struct VecCase {
+    pub proto: u8,
+    /// 0 system, 1 game, 2 connless (ignored for objects)
+    pub sec: u8,
+    pub codec: u16,
+    pub picks: Vec<Pick>,
+    /// number of optional members present (mapped onto 0..=n_opt)
+    pub present: u16,
+    pub mutation: Mutation,
+}
+
+fn xorshift(s: &mut u32) -> u32 {
+    let mut x = *s | 1;
+    x ^= x << 13;
+    x ^= x >> 17;
+    x ^= x << 5;
+    *s = x;
+    x
+}
+
+fn rnd_val(l: &Leaf, rnd: i32) -> Val {
+    let mut s = rnd as u32 ^ 0x9e37_79b9;
+    match &l.kind {
+        LeafKind::Int { lo, hi, .. } => {
+            if rnd >= *lo && rnd <= *hi {
+                Val::I(rnd)
+            } else {
+                let span = (*hi as i64 - *lo as i64 + 1) as u64;
+                Val::I((*lo as i64 + ((rnd as u32 as u64 * span) >> 32) as i64) as i32)
+            }
+        }
+        LeafKind::Str { strict } => {
+            let n = (xorshift(&mut s) % 48) as usize;
+            Val::B(
+                (0..n)
+                    .map(|_| {
+                        let x = xorshift(&mut s);
+                        if *strict {
+                            0x20 + (x % 0x5f) as u8
+                        } else {
+                            1 + (x % 255) as u8
+                        }
+                    })
+                    .collect(),
+            )
+        }
+        LeafKind::Data | LeafKind::Rest => {
+            let n = (xorshift(&mut s) % 70) as usize;
+            Val::B((0..n).map(|_| xorshift(&mut s) as u8).collect())
+        }
+        LeafKind::Addrs => {
+            let n = (xorshift(&mut s) % 5) as usize * 18;
+            Val::B((0..n).map(|_| xorshift(&mut s) as u8).collect())
+        }
+        LeafKind::Raw(n) => Val::B((0..*n).map(|_| xorshift(&mut s) as u8).collect()),
+        LeafKind::BeU16 => Val::I(rnd as u16 as i32),
+        LeafKind::U8 => Val::I(rnd as u8 as i32),
+        LeafKind::IntStr => Val::I(rnd),
+    }
+}
+
+struct Built {
+    ci: usize,
+    vals: Vec<Val>,
+    /// a constrained leaf sits on one of its boundaries
+    boundary_hit: bool,
+    absent: bool,
+}
+
+fn build_vals(w: &World, list: &[usize], c: &VecCase) -> Built {
+    let ci = list[pick(c.codec, list.len())];
+    let codec = &w.codecs[ci];
+    let present = pick(c.present, codec.n_opt + 1);
+    let mut boundary_hit = false;
+    let vals: Vec<Val> = codec
+        .leaves
+        .iter()
+        .enumerate()
+        .map(|(i, l)| {
+            if matches!(l.opt, Some(g) if g >= present) {
+                return Val::Absent;
+            }
+            if c.picks.is_empty() {
+                return default_val(l);
+            }
+            let p = &c.picks[i % c.picks.len()];
+            if p.use_rnd {
+                rnd_val(l, p.rnd)
+            } else {
+                let bs: Vec<&Boundary> = codec.bounds[i].iter().filter(|b| b.valid).collect();
+                if l.constrained() {
+                    boundary_hit = true;
+                }
+                bs[pick(p.sel, bs.len())].val.clone()
+            }
+        })
+        .collect();
+    Built { ci, vals, boundary_hit, absent: present < codec.n_opt }
+}
+
+fn verdict_class(o: Outcome, v: Verdict) -> Outcome {
+    o.class_if(v == Verdict::Accept, "verdict_accept")
+        .class_if(v == Verdict::AcceptExcess, "verdict_accept_excess")
+        .class_if(v == Verdict::Reject, "verdict_reject")
+        .class_if(v == Verdict::DontCare, "verdict_dontcare")
+}
+
+fn proto_class(o: Outcome, proto: usize, sec: Sec) -> Outcome {
+    o.class_if(proto == 0, "proto_0.5")
+        .class_if(proto == 1, "proto_0.6")
+        .class_if(proto == 2, "proto_0.7")
+        .class_if(proto == 3, "proto_ddnet")
+        .class_if(sec == Sec::System, "sec_system")
+        .class_if(sec == Sec::Game, "sec_game")
+        .class_if(sec == Sec::Connless, "sec_connless")
+}
+
+fn mutation_class(o: Outcome, m: &Mutation) -> Outcome {
+    o.class(match m {
+        Mutation::None => "mut_none",
+        Mutation::Truncate(_) => "mut_truncate",
+        Mutation::Excess(_) => "mut_excess",
+        Mutation::Invalid { .. } => "mut_invalid_member",
+        Mutation::Flip { .. } => "mut_flip",
+        Mutation::Insert { .. } => "mut_insert",
+        Mutation::Delete { .. } => "mut_delete",
+        Mutation::OtherEntry(_) => "mut_other_entry",
+    })
+}
+
+/// Applies `Mutation::Invalid`; returns false when the codec has no constrained leaf.
+fn apply_invalid(codec: &Codec, vals: &mut [Val], leaf: u16, which: u16, objs: bool) -> bool {
+    let cands: Vec<usize> = codec
+        .leaves
+        .iter()
+        .enumerate()
+        .filter(|(i, _)| {
+            vals[*i] != Val::Absent
+                && codec.bounds[*i].iter().any(|b| !b.valid && (!objs || matches!(b.val, Val::I(_))))
+        })
+        .map(|(i, _)| i)
+        .collect();
+    if cands.is_empty() {
+        return false;
+    }
+    let li = cands[pick(leaf, cands.len())];
+    let bad: Vec<&Boundary> = codec.bounds[li].iter().filter(|b| !b.valid).collect();
+    vals[li] = bad[pick(which, bad.len())].val.clone();
+    true
+}
+
+fn check_msg_vector(w: &World, c: &VecCase) -> PResult {
+    let proto = c.proto as usize % 4;
+    let sec = [Sec::System, Sec::Game, Sec::Connless][c.sec as usize % 3];
+    let list = w.sec_list(proto, sec);
+    ensure!(!list.is_empty(), "harness bug: empty section");
+    let mut built = build_vals(w, list, c);
+    let codec = &w.codecs[built.ci];
+    let mut entry = sec;
+    let mut expect_reject = false;
+    let mut mutated = true;
+    if let Mutation::Invalid { leaf, which } = &c.mutation {
+        expect_reject = apply_invalid(codec, &mut built.vals, *leaf, *which, false);
+        mutated = expect_reject;
+    }
+    let mut bytes = wire_msg(codec, &built.vals);
+    match &c.mutation {
+        Mutation::None | Mutation::Invalid { .. } => {
+            if matches!(c.mutation, Mutation::None) {
+                mutated = false;
+            }
+        }
+        Mutation::Truncate(t) => {
+            let n = pick(*t, bytes.len());
+            bytes.truncate(n);
+        }
+        Mutation::Excess(x) => {
+            if x.is_empty() {
+                mutated = false;
+            }
+            bytes.extend_from_slice(x);
+        }
+        Mutation::Flip { pos, xor, .. } => {
+            let p = pick(*pos, bytes.len());
+            bytes[p] ^= *xor;
+            if *xor == 0 {
+                mutated = false;
+            }
+        }
+        Mutation::Insert { pos, byte } => {
+            let p = pick(*pos, bytes.len() + 1);
+            bytes.insert(p, *byte);
+        }
+        Mutation::Delete { pos } => {
+            let p = pick(*pos, bytes.len());
+            bytes.remove(p);
+        }
+        Mutation::OtherEntry(e) => {
+            let others: Vec<Sec> = [Sec::System, Sec::Game, Sec::Connless].into_iter().filter(|s| *s != sec).collect();
+            entry = others[*e as usize % 2];
+        }
+    }
+    let m = check_msg_bytes(w, proto, entry, &bytes)?;
+    if !mutated {
+        ensure!(
+            m.verdict == Verdict::Accept && m.canonical && m.codec == Some(built.ci),
+            "harness bug: {}: unmutated vector is not canonical for the model: {:?} ({})",
+            codec.label(),
+            m.verdict,
+            m.why
+        );
+    }
+    if expect_reject {
+        ensure!(
+            m.verdict == Verdict::Reject,
+            "harness bug: {}: vector with one violated constraint is {:?} for the model ({})",
+            codec.label(),
+            m.verdict,
+            m.why
+        );
+    }
+    let definite = m.verdict != Verdict::DontCare;
+    let o = Outcome::nt(definite && (built.boundary_hit || mutated));
+    let o = mutation_class(verdict_class(proto_class(o, proto, sec), m.verdict), &c.mutation);
+    Ok(o.class_if(built.absent, "optional_absent")
+        .class_if(built.boundary_hit, "constrained_boundary")
+        .class_if(bytes.len() > 200, "over_200_bytes"))
+}
+
+fn check_obj_vector(w: &World, c: &VecCase) -> PResult {
+    let proto = c.proto as usize % 4;
+    let list = w.sec_list(proto, Sec::Obj);
+    let mut built = build_vals(w, list, c);
+    let codec = &w.codecs[built.ci];
+    let mut expect_reject = false;
+    let mut mutated = true;
+    if let Mutation::Invalid { leaf, which } = &c.mutation {
+        expect_reject = apply_invalid(codec, &mut built.vals, *leaf, *which, true);
+        mutated = expect_reject;
+    }
+    let mut words = words_obj(&built.vals);
+    match &c.mutation {
+        Mutation::None => mutated = false,
+        Mutation::Invalid { .. } => {}
+        Mutation::Truncate(t) => {
+            if words.is_empty() {
+                mutated = false;
+            } else {
+                let n = pick(*t, words.len());
+                words.truncate(n);
+            }
+        }
+        Mutation::Excess(x) => {
+            if x.is_empty() {
+                mutated = false;
+            }
+            words.extend(x.iter().map(|b| *b as i8 as i32));
+        }
+        Mutation::Flip { pos, word, .. } => {
+            if words.is_empty() {
+                mutated = false;
+            } else {
+                let p = pick(*pos, words.len());
+                if words[p] == *word {
+                    mutated = false;
+                }
+                words[p] = *word;
+            }
+        }
+        Mutation::Insert { pos, byte } => {
+            let p = pick(*pos, words.len() + 1);
+            words.insert(p, *byte as i8 as i32);
+        }
+        Mutation::Delete { pos } => {
+            if words.is_empty() {
+                mutated = false;
+            } else {
+                let p = pick(*pos, words.len());
+                words.remove(p);
+            }
+        }
+        Mutation::OtherEntry(_) => mutated = false,
+    }
+    let m = check_obj_words(w, proto, &codec.id, &words)?;
+    if !mutated {
+        ensure!(
+            m.verdict == Verdict::Accept && m.codec == Some(built.ci),
+            "harness bug: {}: unmutated object is {:?} for the model ({})",
+            codec.label(),
+            m.verdict,
+            m.why
+        );
+    }
+    if expect_reject {
+        ensure!(m.verdict == Verdict::Reject, "harness bug: {}: violated constraint but model says {:?}", codec.label(), m.verdict);
+    }
+    let o = Outcome::nt(!words.is_empty() && (built.boundary_hit || mutated));
+    let o = mutation_class(verdict_class(proto_class(o, proto, Sec::Obj), m.verdict), &c.mutation);
+    Ok(o.class_if(built.boundary_hit, "constrained_boundary")
+        .class_if(matches!(codec.id, Id::Uuid(_)), "uuid_type")
+        .class_if(w.skip_encode[built.ci], "encode_comparison_excluded_known"))
+}
+
+fn pick_strategy() -> impl Strategy<Value = Pick> {
+    (any::<u16>(), prop::bool::weighted(0.35), rnd_int()).prop_map(|(sel, use_rnd, rnd)| Pick { sel, use_rnd, rnd })
+}
+
+fn rnd_int() -> BoxedStrategy<i32> {
+    prop_oneof![
+        3 => any::<i32>(),
+        3 => -70i32..300,
+        2 => (0u32..32, any::<bool>(), -2i32..=2).prop_map(|(s, neg, d)| {
+            let b = ((1i64 << s) + d as i64) as i32;
+            if neg { b.wrapping_neg() } else { b }
+        }),
+    ]
+    .boxed()
+}
+
+fn mutation_strategy() -> BoxedStrategy<Mutation> {
+    prop_oneof![
+        5 => Just(Mutation::None),
+        3 => any::<u16>().prop_map(Mutation::Truncate),
+        2 => proptest::collection::vec(any::<u8>(), 1..6).prop_map(Mutation::Excess),
+        4 => (any::<u16>(), any::<u16>()).prop_map(|(leaf, which)| Mutation::Invalid { leaf, which }),
+        3 => (any::<u16>(), 1u8..=255, rnd_int()).prop_map(|(pos, xor, word)| Mutation::Flip { pos, xor, word }),
+        1 => (any::<u16>(), any::<u8>()).prop_map(|(pos, byte)| Mutation::Insert { pos, byte }),
+        1 => any::<u16>().prop_map(|pos| Mutation::Delete { pos }),
+        1 => any::<u8>().prop_map(Mutation::OtherEntry),
+    ]
+    .boxed()
+}
+
+fn vec_case_strategy() -> impl Strategy<Value = VecCase> {
+    (
+        0u8..4,
+        0u8..3,
+        any::<u16>(),
+        proptest::collection::vec(pick_strategy(), 0..12),
+        any::<u16>(),
+        mutation_strategy(),
+    )
+        .prop_map(|(proto, sec, codec, picks, present, mutation)| VecCase { proto, sec, codec, picks, present, mutation })
+}
+
+// ---------------------------------------------------------------------------
+// Arbitrary bytes / words
+
+#[derive(Clone, Debug, Hash, Serialize, Deserialize)]
+pub enum Tok {
+    Int(i32),
+    Str(Vec<u8>),
+    Bytes(Vec<u8>),
+}
+
+#[derive(Clone, Debug, Hash, Serialize, Deserialize)]
+pub enum Body {
+    /// the bytes as they are
+    Raw(Vec<u8>),
+    /// the id of a described message followed by these bytes
+    Prefixed { codec: u16, payload: Vec<u8> },
+    /// the id of a described message followed by packed ints / strings / raw bytes
+    Tokens { codec: u16, toks: Vec<Tok> },
+    /// like `Tokens`, but token i is coerced to the kind of the codec's member i (values stay arbitrary)
+    Guided { codec: u16, toks: Vec<Tok>, cut: Option<u16> },
+}
+
+#[derive(Clone, Debug, Hash, Serialize, Deserialize)]
+pub struct BytesCase {
+    pub proto: u8,
+    pub entry: u8,
+    pub body: Body,
+}
+
+fn bytes_case_strategy() -> impl Strategy<Value = BytesCase> {
+    let small = prop_oneof![3 => -3i32..70, 1 => any::<i32>(), 1 => -200i32..2000];
+    let tok = prop_oneof![
+        5 => small.prop_map(Tok::Int),
+        3 => proptest::collection::vec(prop_oneof![8 => 0x20u8..0x7f, 1 => 1u8..0x20, 1 => any::<u8>()], 0..12)
+            .prop_map(|v| Tok::Str(v.into_iter().filter(|b| *b != 0).collect())),
+        1 => proptest::collection::vec(any::<u8>(), 0..20).prop_map(Tok::Bytes),
+    ];
+    let body = prop_oneof![
+        2 => proptest::collection::vec(any::<u8>(), 0..40).prop_map(Body::Raw),
+        3 => (any::<u16>(), proptest::collection::vec(any::<u8>(), 0..60)).prop_map(|(codec, payload)| Body::Prefixed { codec, payload }),
+        4 => (any::<u16>(), proptest::collection::vec(tok.clone(), 0..50)).prop_map(|(codec, toks)| Body::Tokens { codec, toks }),
+        6 => (any::<u16>(), proptest::collection::vec(tok, 1..16), proptest::option::weighted(0.2, any::<u16>()))
+            .prop_map(|(codec, toks, cut)| Body::Guided { codec, toks, cut }),
+    ];
+    (0u8..4, 0u8..3, body).prop_map(|(proto, entry, body)| BytesCase { proto, entry, body })
+}
+
+fn check_bytes_case(w: &World, c: &BytesCase) -> PResult {
+    let proto = c.proto as usize % 4;
+    let entry = [Sec::System, Sec::Game, Sec::Connless][c.entry as usize % 3];
+    let list = w.sec_list(proto, entry);
+    let mut bytes = Vec::new();
+    match &c.body {
+        Body::Raw(b) => bytes.extend_from_slice(b),
+        Body::Prefixed { codec, payload } => {
+            let cd = &w.codecs[list[pick(*codec, list.len())]];
+            emit_id(&mut bytes, cd.sec, &cd.id);
+            bytes.extend_from_slice(payload);
+        }
+        Body::Tokens { codec, toks } => {
+            let cd = &w.codecs[list[pick(*codec, list.len())]];
+            emit_id(&mut bytes, cd.sec, &cd.id);
+            for t in toks {
+                match t {
+                    Tok::Int(v) => put_int(&mut bytes, *v),
+                    Tok::Str(s) => {
+                        bytes.extend(s.iter().filter(|b| **b != 0));
+                        bytes.push(0);
+                    }
+                    Tok::Bytes(b) => bytes.extend_from_slice(b),
+                }
+            }
+        }
+        Body::Guided { codec, toks, cut } => {
+            let cd = &w.codecs[list[pick(*codec, list.len())]];
+            emit_id(&mut bytes, cd.sec, &cd.id);
+            for (i, l) in cd.leaves.iter().enumerate() {
+                let t = &toks[i % toks.len()];
+                let (num, raw): (i32, Vec<u8>) = match t {
+                    Tok::Int(v) => (*v, format!("{}", v).into_bytes()),
+                    Tok::Str(s) | Tok::Bytes(s) => (s.len() as i32 - 1, s.iter().copied().filter(|b| *b != 0).collect()),
+                };
+                match &l.kind {
+                    LeafKind::Int { .. } => put_int(&mut bytes, num),
+                    LeafKind::Str { .. } | LeafKind::IntStr => {
+                        bytes.extend_from_slice(&raw);
+                        bytes.push(0);
+                    }
+                    LeafKind::Data => {
+                        put_int(&mut bytes, raw.len() as i32);
+                        bytes.extend_from_slice(&raw);
+                    }
+                    LeafKind::Rest | LeafKind::Addrs => bytes.extend_from_slice(&raw),
+                    LeafKind::Raw(n) => bytes.extend((0..*n).map(|j| raw.get(j).copied().unwrap_or(num as u8))),
+                    LeafKind::BeU16 => bytes.extend_from_slice(&(num as u16).to_be_bytes()),
+                    LeafKind::U8 => bytes.push(num as u8),
+                }
+            }
+            if let Some(c) = cut {
+                let n = pick(*c, bytes.len() + 1);
+                bytes.truncate(n);
+            }
+        }
+    }
+    let m = check_msg_bytes(w, proto, entry, &bytes)?;
+    let o = Outcome::nt(m.codec.is_some() && m.verdict != Verdict::DontCare && bytes.len() > 2);
+    Ok(verdict_class(proto_class(o, proto, entry), m.verdict)
+        .class_if(m.codec.is_some(), "resolved_a_codec")
+        .class_if(matches!(c.body, Body::Raw(_)), "body_raw")
+        .class_if(matches!(c.body, Body::Tokens { .. }), "body_tokens")
+        .class_if(matches!(c.body, Body::Guided { .. }), "body_guided"))
+}
+
+#[derive(Clone, Debug, Hash, Serialize, Deserialize)]
+pub enum ObjType {
+    Described(u16),
+    Ordinal(u16),
+    Uuid([u8; 16]),
+}
+
+#[derive(Clone, Debug, Hash, Serialize, Deserialize)]
+pub struct WordsCase {
+    pub proto: u8,
+    pub ty: ObjType,
+    pub words: Vec<i32>,
+    /// repeat / cut the words to the described size of the type plus this many (when the type is described)
+    pub fit: Option<i8>,
+}
+
+fn words_case_strategy() -> impl Strategy<Value = WordsCase> {
+    let ty = prop_oneof![
+        8 => any::<u16>().prop_map(ObjType::Described),
+        1 => any::<u16>().prop_map(ObjType::Ordinal),
+        1 => (0u16..80).prop_map(ObjType::Ordinal),
+        1 => any::<[u8; 16]>().prop_map(ObjType::Uuid),
+    ];
+    let word = prop_oneof![5 => -3i32..12, 2 => -300i32..300, 1 => any::<i32>(), 1 => rnd_int()];
+    let fit = prop_oneof![3 => Just(None), 5 => Just(Some(0i8)), 2 => (-2i8..3).prop_map(Some)];
+    (0u8..4, ty, proptest::collection::vec(word, 0..70), fit).prop_map(|(proto, ty, words, fit)| WordsCase { proto, ty, words, fit })
+}
+
+fn check_words_case(w: &World, c: &WordsCase) -> PResult {
+    let proto = c.proto as usize % 4;
+    let list = w.sec_list(proto, Sec::Obj);
+    let id = match &c.ty {
+        ObjType::Described(i) => w.codecs[list[pick(*i, list.len())]].id.clone(),
+        ObjType::Ordinal(i) => Id::Ord(*i as i32),
+        ObjType::Uuid(u) => Id::Uuid(*u),
+    };
+    let mut words = c.words.clone();
+    if let (Some(d), Some(&ci), false) = (c.fit, w.index.get(&(proto, Sec::Obj, id.clone())), words.is_empty()) {
+        let n = (w.codecs[ci].leaves.len() as i64 + d as i64).max(0) as usize;
+        words = (0..n).map(|i| c.words[i % c.words.len()]).collect();
+    }
+    let m = check_obj_words(w, proto, &id, &words)?;
+    if m.codec.is_none() {
+        // an undescribed type: nothing is known about its size either
+        if let Id::Ord(i) = id {
+            let s = guard(|| (DRIVERS[proto].obj_size)(i as u16)).map_err(|p| format!("obj_size({}): {}", i, p))?;
+            ensure!(s.is_none(), "{}: obj_size({}) = {:?} for a type that is not in the description", PROTO_NAMES[proto], i, s);
+        }
+    }
+    let o = Outcome::nt(m.codec.is_some() && words.len() >= 2);
+    Ok(verdict_class(proto_class(o, proto, Sec::Obj), m.verdict).class_if(m.codec.is_none(), "undescribed_type"))
+}
+
+// ---------------------------------------------------------------------------
+
+fn load_world(ctx: &Ctx) -> World {
+    let repo = std::env::var("VERIF_REPO").unwrap_or_else(|_| "/repo".to_string());
+    let mut codecs: Vec<Codec> = Vec::new();
+    for (pi, file) in PROTO_FILES.iter().enumerate() {
+        let path = format!("{}/gamenet/generate/spec/{}", repo, file);
+        let parsed = std::fs::read_to_string(&path)
+            .map_err(|e| format!("cannot read {}: {}", path, e))
+            .and_then(|t| serde_json::from_str::<Value>(&t).map_err(|e| format!("cannot parse {}: {}", path, e)))
+            .and_then(|v| parse_spec(pi, &v).map_err(|e| format!("{}: {}", path, e)));
+        match parsed {
+            Ok(c) => codecs.extend(c),
+            Err(e) => {
+                println!("INCONCLUSIVE: C14 cannot interpret a protocol description: {}", e);
+                std::process::exit(2);
+            }
+        }
+    }
+    for c in codecs.iter_mut() {
+        c.bounds = c.leaves.iter().map(boundaries).collect();
+    }
+    let mut index = BTreeMap::new();
+    let mut by_sec: Vec<Vec<usize>> = vec![Vec::new(); 16];
+    for (ci, c) in codecs.iter().enumerate() {
+        if index.insert((c.proto, c.sec, c.id.clone()), ci).is_some() {
+            println!("INCONCLUSIVE: C14 duplicate id in the description: {}", c.label());
+            std::process::exit(2);
+        }
+        by_sec[c.proto * 4 + c.sec as usize].push(ci);
+    }
+    let skip_encode = codecs
+        .iter()
+        .map(|c| c.sec == Sec::Obj && c.has_bool() && ctx.known_open(&bool_key(c)))
+        .collect();
+    World { codecs, index, by_sec, skip_encode }
+}
+
+fn bool_key(c: &Codec) -> String {
+    format!("bool-encode.{}.{}", PROTO_NAMES[c.proto], c.name)
+}
+
+/// Probe for the boolean-member layout defect of one snapshot object.
+fn probe_bool_object(w: &World, ci: usize) -> Result<(), String> {
+    let c = &w.codecs[ci];
+    let mut vals = default_vals(c, 0);
+    for (l, v) in c.leaves.iter().zip(vals.iter_mut()) {
+        if l.is_bool() {
+            *v = Val::I(1);
+        }
+    }
+    let words = words_obj(&vals);
+    for round in 0..4 {
+        let out = (DRIVERS[c.proto].obj)(type_id_of(&c.id), &words, true)?;
+        ensure!(out.ok, "{}: valid words rejected: {}", c.label(), out.err);
+        match out.words {
+            Some(Ok(w2)) => ensure!(
+                w2 == words,
+                "{}: decode_obj({:?}).encode() = {:?} ({} words instead of {}, round {})",
+                c.label(),
+                words,
+                w2,
+                w2.len(),
+                words.len(),
+                round
+            ),
+            Some(Err(e)) => return Err(format!("{}: {}", c.label(), e)),
+            None => return Err("harness bug".into()),
+        }
+    }
+    Ok(())
+}
+
+pub fn run(ctx: &Ctx) {
+    ctx.set_rule(
+        "codecs and member types come from the four JSON descriptions; boundary sweeps enumerate every (codec, member, boundary value) \
+         with the other members at a default (non-trivial = the member is constrained or the case is an optional-presence pattern); \
+         vector sections draw a codec, per-member boundary-or-random values and one mutation (truncate, excess, one violated \
+         constraint, byte flip/insert/delete, wrong entry point) with proptest (non-trivial = the description decides the input and \
+         a constrained member sits on a boundary or a mutation was applied; distinct by case hash); byte sections feed raw, \
+         id-prefixed and token-structured strings (non-trivial = resolves a described codec and the description decides the input)",
+    );
+    ctx.assume("the reference model of the member kinds is written from gamenet/generate/datatypes.py and doc/int.md");
+    ctx.assume("flags members are plain int32 on the wire (the generator does not constrain them); only declared bits are generated");
+    ctx.assume("a message that ends before an optional member is canonical; re-encoding it is not demanded (the generated encoder asserts presence)");
+    ctx.assume("inputs the descriptions do not decide (non-zero int padding, \"+5\"/\"007\" int strings, optional member absent with bytes left) only must not panic");
+    let world = load_world(ctx);
+    let w = &world;
+
+    // inventory
+    let mut per = BTreeMap::new();
+    for c in &w.codecs {
+        *per.entry(format!("{}/{}", PROTO_NAMES[c.proto], SEC_NAMES[c.sec as usize])).or_insert(0u64) += 1;
+    }
+    let leaves: usize = w.codecs.iter().map(|c| c.leaves.len()).sum();
+    ctx.extra("codecs_described", json!(w.codecs.len()));
+    ctx.extra("codecs_per_section", json!(per));
+    ctx.extra("member_leaves", json!(leaves));
+    let excluded = w.skip_encode.iter().filter(|b| **b).count();
+    if excluded > 0 {
+        // counted in codecs: for these objects everything but the encode() word comparison is still checked
+        ctx.add_excluded_known(excluded as u64);
+        ctx.note(format!(
+            "encode() word comparison skipped for {} snapshot objects with listed bool-encode findings (cases counted in class encode_comparison_excluded_known)",
+            excluded
+        ));
+    }
+
+    // known / fixed defect probes: one per snapshot object with boolean members
+    for (ci, c) in w.codecs.iter().enumerate() {
+        if c.sec == Sec::Obj && c.has_bool() {
+            ctx.probe(&bool_key(c), || probe_bool_object(w, ci));
+        }
+    }
+
+    // complete boundary sweeps
+    let mt = sweep_table(w, false);
+    let ot = sweep_table(w, true);
+    let covered: std::collections::BTreeSet<u32> = mt.iter().chain(ot.iter()).map(|it| it.codec).collect();
+    ctx.extra("codecs_in_boundary_sweeps", json!(covered.len()));
+    ctx.extra("msg_codec_member_boundary_triples", json!(mt.len()));
+    ctx.extra("obj_codec_member_boundary_triples", json!(ot.len()));
+    let render = |t: &Vec<SweepItem>, i: u64| {
+        let it = t[i as usize];
+        let (vals, valid, _, desc) = sweep_case(w, it);
+        let c = &w.codecs[it.codec as usize];
+        if c.sec == Sec::Obj {
+            json!({"case": desc, "valid": valid, "words": words_obj(&vals)})
+        } else {
+            json!({"case": desc, "valid": valid, "wire": hex(&wire_msg(c, &vals))})
+        }
+    };
+    ctx.exhaustive("msg_boundary_sweep", mt.len() as u64, |i| check_sweep(w, mt[i as usize]), |i| render(&mt, i));
+    ctx.exhaustive("obj_boundary_sweep", ot.len() as u64, |i| check_sweep(w, ot[i as usize]), |i| render(&ot, i));
+
+    // every ordinal id: undescribed ones are refused, described ones follow the model
+    const MSG_IDS: u64 = 2 * 2048;
+    const PER_PROTO: u64 = MSG_IDS + 65536;
+    let id_case = |i: u64| -> (usize, Option<(Sec, Vec<u8>)>, Option<u16>) {
+        let proto = (i / PER_PROTO) as usize;
+        let r = i % PER_PROTO;
+        if r < MSG_IDS {
+            let sys = r & 1 != 0;
+            let ord = (r >> 1) as i32 - 1024;
+            let mut b = int_bytes(ord.wrapping_shl(1) | sys as i32);
+            b.extend_from_slice(&[0u8; 48]);
+            (proto, Some((if sys { Sec::System } else { Sec::Game }, b)), None)
+        } else {
+            (proto, None, Some((r - MSG_IDS) as u16))
+        }
+    };
+    ctx.exhaustive(
+        "id_sweep",
+        4 * PER_PROTO,
+        |i| match id_case(i) {
+            (proto, Some((sec, b)), _) => check_msg_bytes(w, proto, sec, &b).map(|m| m.codec.is_some()),
+            (proto, _, Some(t)) => {
+                let id = Id::Ord(t as i32);
+                let m = check_obj_words(w, proto, &id, &[0i32; 70])?;
+                let size = guard(|| (DRIVERS[proto].obj_size)(t)).map_err(|p| format!("obj_size({}): {}", t, p))?;
+                let described = m.codec.map(|ci| w.codecs[ci].leaves.len() as u32);
+                ensure_eq!(size, described, "{}: obj_size({}) against the described word count", PROTO_NAMES[proto], t);
+                Ok(m.codec.is_some())
+            }
+            _ => Ok(false),
+        },
+        |i| match id_case(i) {
+            (proto, Some((sec, b)), _) => json!({"proto": PROTO_NAMES[proto], "entry": SEC_NAMES[sec as usize], "bytes": hex(&b)}),
+            (proto, _, t) => json!({"proto": PROTO_NAMES[proto], "object_type": t}),
+        },
+    );
+
+    // generated vectors with mutations
+    ctx.prop("msg_vectors", ctx.n(400_000, 8_000_000), vec_case_strategy, |c: &VecCase| check_msg_vector(w, c));
+    ctx.prop("obj_vectors", ctx.n(250_000, 5_000_000), vec_case_strategy, |c: &VecCase| check_obj_vector(w, c));
+
+    // arbitrary bytes / words
+    ctx.prop("msg_bytes", ctx.n(400_000, 8_000_000), bytes_case_strategy, |c: &BytesCase| check_bytes_case(w, c));
+    ctx.prop("obj_words", ctx.n(250_000, 5_000_000), words_case_strategy, |c: &WordsCase| check_words_case(w, c));
 }
